@@ -297,5 +297,11 @@ func (s *Syncer) deletedCutoff(now time.Time) header.Timestamp {
 	// actually being slightly in the past when the whole operation was started.
 	retention := s.c.Sweeper.RetentionDurationMinusCutoff()
 	cutoff := now.Add(-retention)
+	if cutoff.Before(time.Unix(0, 0)) {
+		// Retention longer than the time since the UNIX epoch: nothing is
+		// stale. A negative time would wrap around to a huge unsigned
+		// timestamp and make every deletion marker look stale.
+		return 0
+	}
 	return header.TimestampFromTime(cutoff)
 }
